@@ -39,6 +39,20 @@ def accounting_cases(rng, tier):
                     else:
                         c.fail("wrap raised " + w.err)
                     yield c
+    # keys with structure a "clever" pad routine might react to: real (T)DES keys (every byte of odd parity), all-zero, all-FF,
+    # ASCII text; for every algorithm letter the pad must still be exactly the OS entropy drawn in that call
+    def oddp(n):
+        return bytes((b & 0xFE) | (1 ^ (bin(b & 0xFE).count("1") % 2)) for b in rb(rng, n))
+    for ver, (bs, ksizes, ml) in VERS.items():
+        for alg in "TDA0H":
+            for key in (oddp(8), oddp(16), oddp(24), bytes(16), b"\xff" * 16, b"0123456789ABCDEF", bytes.fromhex("0123456789ABCDEFFEDCBA9876543210")):
+                h = make_header(rng, ver, rand_blocks(rng, rng.randrange(0, 2)), alg=alg)
+                mask = rng.choice([None, None, 32])
+                c = Case(f"accounting:wrap:{ver}:structured-key", {"alg": alg, "key": len(key), "mask": mask})
+                w = wrap_case(c, rb(rng, ksizes[-1]), h, key, mask)
+                if not w.ok:
+                    c.fail("wrap raised " + w.err)
+                yield c
     for plen in range(4, 13):
         for _ in range(12 * reps):
             pin, pan = digits(rng, plen), digits(rng, rng.randrange(13, 20))
